@@ -1195,6 +1195,15 @@ func c19steal(c *c19case, js string, s *vt.Sink, _ int64) error {
 		cmu.Unlock()
 	}
 
+	// what reaches the session's packet callbacks (FRAME cases)
+	seen := &c19seen{}
+	bd.OnRecordHook = func(ctx *gortsplib.ServerHandlerOnRecordCtx) {
+		ctx.Session.OnPacketRTPAny(seen.onRTP)
+		ctx.Session.OnPacketRTCPAny(seen.onRTCP)
+	}
+	bd.OnPlayHook = func(ctx *gortsplib.ServerHandlerOnPlayCtx) {
+		ctx.Session.OnPacketRTCPAny(seen.onRTCP)
+	}
 	proto, fromIP := "udp", c19ipOther
 	switch c.How {
 	case "ip":
@@ -1266,10 +1275,31 @@ func c19steal(c *c19case, js string, s *vt.Sink, _ int64) error {
 		}
 		req.Header["Transport"] = c19transport(proto, 1, record, port)
 	}
-	r := in.Do(req)
 	status := 499 // no response at all
-	if r.Res != nil {
-		status = int(r.Res.StatusCode)
+	delivered := false
+	if c.Method == "FRAME" {
+		// well-formed packets for the session's first media, framed for its channels 0 and 1
+		const fid = 7001
+		var buf []byte
+		for ch, pl := range [][]byte{c19marshal(tr, c19rtpPkt(c19pt0, 4242, 0x19F7A3E5, fid)), c19marshal(tr, c19srPkt(0x19F7A3E5, fid))} {
+			buf = append(buf, '$', byte(ch), byte(len(pl)>>8), byte(len(pl)))
+			buf = append(buf, pl...)
+		}
+		in.N.SetWriteDeadline(time.Now().Add(2 * time.Second)) //nolint:errcheck
+		in.N.Write(buf)                                        //nolint:errcheck
+		c19poll(c19window, func() bool {
+			delivered = seen.has("rtp", fid) || seen.has("rtcp", fid)
+			return delivered
+		})
+		// the attempt "receives an error": the connection is ended, or at least answers no more
+		if r := in.Do(&base.Request{Method: base.Options, URL: bed.MustURL(v.url)}); r.Res != nil {
+			status = int(r.Res.StatusCode)
+		}
+	} else {
+		r := in.Do(req)
+		if r.Res != nil {
+			status = int(r.Res.StatusCode)
+		}
 	}
 	time.Sleep(100 * time.Millisecond)
 	st1 := sess.State()
@@ -1281,7 +1311,7 @@ func c19steal(c *c19case, js string, s *vt.Sink, _ int64) error {
 	if how == "ip6" {
 		how = "ip" // the same clause: another address
 	}
-	tr.Emit("steal", "how", how, "status", status, "same", st1 == st0 && !closed,
+	tr.Emit("steal", "how", how, "status", status, "same", st1 == st0 && !closed && !delivered,
 		"state", c.State, "method", c.Method, "st0", st0.String(), "st1", st1.String(), "closed", closed,
 		"newSessions", opened1-opened0, "early", c.Early, "earlyStatus", earlyStatus)
 	tr.Emit("end")
